@@ -43,7 +43,7 @@ var readOps = []string{"fetch-blob", "fetch-manifest", "fetchref-digest", "fetch
 var writeOps = []string{"push-manifest", "delete-blob", "delete-manifest", "mount", "tag"}
 var digestCorruptions = []string{"dcd-other", "dcd-malformed", "dcd-other-alg"}
 
-var contentCorruptions = []string{"dcd-other", "dcd-other-alg", "dcd-malformed", "cl-plus", "cl-minus", "body-trunc", "body-extend", "body-flip", "ct-other", "ct-malformed",
+var contentCorruptions = []string{"dcd-other", "dcd-other-alg", "dcd-malformed", "cl-plus", "cl-minus", "body-trunc", "body-extend", "body-flip", "body-empty", "body-one", "ct-other", "ct-malformed",
 	"status-404", "status-500", "status-201", "status-206", "status-403"}
 
 func isTagOp(op string) bool    { return strings.HasSuffix(op, "-tag") }
@@ -74,7 +74,7 @@ func classify(c *corrCase, prof regmodel.Profile) {
 		default:
 			c.class = mustFail
 		}
-	case "cl-plus", "cl-minus", "body-trunc", "body-extend", "body-flip":
+	case "cl-plus", "cl-minus", "body-trunc", "body-extend", "body-flip", "body-empty", "body-one":
 		switch {
 		case isResolve(c.op):
 			c.exemptSZ = true // HEAD: the length header is all there is to know
@@ -280,6 +280,8 @@ func runCorrupt(i int) worker.Result {
 	variant := rng.IntN(1 << 16)
 
 	var fired atomic.Int32
+	var declared atomic.Int64
+	declared.Store(-1)
 	var armed atomic.Bool
 	v.reg.After = func(rec *regmodel.Record, resp *regmodel.Response) {
 		if !armed.Load() || rec.Method != c.method || rec.Kind != c.kind || rec.Repo != repoName {
@@ -295,6 +297,17 @@ func runCorrupt(i int) worker.Result {
 			return
 		}
 		corrupt(c, variant, n, resp)
+		// the length the corrupted response declares (-1: none, chunked)
+		switch cl := resp.Header.Get("Content-Length"); {
+		case resp.Status != http.StatusOK:
+			declared.Store(-1)
+		case cl != "":
+			if k, err := strconv.ParseInt(cl, 10, 64); err == nil {
+				declared.Store(k)
+			}
+		case !resp.NoLength:
+			declared.Store(int64(len(resp.Body)))
+		}
 	}
 
 	res.Count("corruptions_tried", 1)
@@ -325,6 +338,12 @@ func runCorrupt(i int) worker.Result {
 		res.NT = true
 		if !outcome.failed {
 			res.Violate("contradiction-accepted:"+c.op+":"+c.corr, fmt.Sprintf("%s with %s on the %s response: the call and the verified read of its body both succeeded", c.op, c.corr, c.method), v.corrWitness(c, n, outcome))
+		} else if dl := declared.Load(); isByDesc(c.op) && !c.absent && dl >= 0 && dl != n.desc.Size && outcome.callErr == "" {
+			// the statement's own wording for this contradiction: a declared
+			// length different from the requested descriptor's size makes the
+			// CALL fail; handing out the body (which an unverified read would
+			// take for the content) is not enough
+			res.Violate("contradiction-accepted:"+c.op+":"+c.corr+":declared-length", fmt.Sprintf("%s of a %d-byte descriptor: the response declared Content-Length %d (%s) and the call returned a body instead of failing (only the verified read noticed: %s)", c.op, n.desc.Size, dl, c.corr, outcome.readErr), v.corrWitness(c, n, outcome))
 		} else {
 			res.Count("corruptions_detected", 1)
 		}
@@ -375,6 +394,20 @@ func corrupt(c *corrCase, variant int, n *node, resp *regmodel.Response) {
 		} else {
 			resp.Body = []byte{'x'}
 		}
+	case "body-empty": // Content-Length: 0 with an empty body
+		if len(resp.Body) > 0 {
+			resp.Body = []byte{}
+		} else {
+			resp.Body = []byte{'x'}
+		}
+		resp.NoLength = false
+	case "body-one": // Content-Length: 1 with a 1-byte body
+		if len(resp.Body) != 1 {
+			resp.Body = append([]byte{}, append(resp.Body, 'x')[0])
+		} else {
+			resp.Body = []byte("xy")
+		}
+		resp.NoLength = false
 	case "body-extend":
 		resp.Body = append(resp.Body, []byte(" \n}x")[variant%4])
 	case "body-flip":
